@@ -10,7 +10,13 @@ REL_LIMIT = 60 * 60 * 24 * 30
 
 
 def is_key(k):
-    return 0 < len(k) <= MAX_KEY and not any(c <= 32 or c == 127 for c in k)
+    """the documented key rule: 1..250 bytes, no whitespace, no NUL (as Spec/LegalKey.v)"""
+    return 0 < len(k) <= MAX_KEY and not any(c in b" \t\n\r\x0b\x0c\x00" for c in k)
+
+
+def udec(b, hi):
+    """strict unsigned decimal: digits only"""
+    return int(b) if b.isdigit() and int(b) <= hi else None
 
 
 def dec(b, lo, hi):
@@ -75,11 +81,11 @@ class Server:
                 n = 6 if verb == b"cas" else 5
                 noreply = len(parts) == n + 1 and parts[n] == b"noreply"
                 ok = (len(parts) == n or noreply) and is_key(parts[1])
-                fl = dec(parts[2], 0, 2 ** 32 - 1) if ok else None
+                fl = udec(parts[2], 2 ** 32 - 1) if ok else None
                 ex = dec(parts[3], -2 ** 63, 2 ** 63 - 1) if ok else None
-                ln = dec(parts[4], 0, 2 ** 31) if ok else None
-                cu = dec(parts[5], 0, 2 ** 64 - 1) if ok and verb == b"cas" else 0
-                if not ok or None in (fl, ex, ln, cu) or b"-" in parts[4]:
+                ln = udec(parts[4], 2 ** 62) if ok else None
+                cu = (parts[5] if parts[5].isdigit() else None) if ok and verb == b"cas" else 0
+                if not ok or None in (fl, ex, ln, cu):
                     out += b"ERROR\r\n"
                     self.log.append(("bad", line))
                     buf = rest
@@ -93,7 +99,7 @@ class Server:
                     self.log.append(("bad", line))
                     continue
                 self.log.append((verb.decode(), parts[1], fl, ex, block, cu if verb == b"cas" else None, noreply))
-                r = self.store(verb, parts[1], fl, ex, block, cu)
+                r = self.store(verb, parts[1], fl, ex, block, int(cu))
                 if not noreply:
                     out += r
                 continue
@@ -110,9 +116,9 @@ class Server:
                 r = b"DELETED\r\n" if self.live(parts[1]) else b"NOT_FOUND\r\n"
                 self.d.pop(parts[1], None)
                 out += b"" if len(parts) == 3 else r
-            elif verb in (b"incr", b"decr") and len(parts) in (3, 4) and is_key(parts[1]) and dec(parts[2], 0, 2 ** 64 - 1) is not None \
-                    and b"-" not in parts[2] and (len(parts) == 3 or parts[3] == b"noreply"):
-                delta = dec(parts[2], 0, 2 ** 64 - 1)
+            elif verb in (b"incr", b"decr") and len(parts) in (3, 4) and is_key(parts[1]) and udec(parts[2], 2 ** 64 - 1) is not None \
+                    and (len(parts) == 3 or parts[3] == b"noreply"):
+                delta = udec(parts[2], 2 ** 64 - 1)
                 self.log.append((verb.decode(), parts[1], delta, len(parts) == 4))
                 it = self.live(parts[1])
                 if it is None:
@@ -137,18 +143,15 @@ class Server:
                     self.retime(parts[1], it, ex)
                     r = b"TOUCHED\r\n"
                 out += b"" if len(parts) == 4 else r
-            elif verb == b"flush_all" and len(parts) <= 3 and all(p == b"noreply" or dec(p, 0, 2 ** 63 - 1) is not None for p in parts[1:]):
-                nr = parts[-1] == b"noreply"
-                args = parts[1:-1] if nr else parts[1:]
-                if len(args) > 1 or any(a == b"noreply" for a in args):
-                    out += b"ERROR\r\n"
-                    self.log.append(("bad", line))
-                else:
-                    delay = dec(args[0], 0, 2 ** 63 - 1) if args else 0
-                    self.log.append(("flush_all", delay, nr))
-                    if delay == 0:
-                        self.d.clear()
-                    out += b"" if nr else b"OK\r\n"
+            elif verb == b"flush_all" and len(parts) in (2, 3) and udec(parts[1], 2 ** 63 - 1) is not None \
+                    and (len(parts) == 2 or parts[2] == b"noreply"):
+                # strict: the delay is required (the client always sends it)
+                nr = len(parts) == 3
+                delay = udec(parts[1], 2 ** 63 - 1)
+                self.log.append(("flush_all", delay, nr))
+                if delay == 0:
+                    self.d.clear()
+                out += b"" if nr else b"OK\r\n"
             elif line == b"version":
                 self.log.append(("version",))
                 out += b"VERSION 1.6.21\r\n"
